@@ -17,6 +17,12 @@ token:
   * both returned, tokens differ               -> VIOLATION
 If the two streams lose alignment (different operands on the same line) the run
 is INCONCLUSIVE (reported as a monitor error), never a verdict.
+
+A driver argv may also be given as {"argv": [...], "cwd": ..., "env": {...}}.  A 4th argument
+{"mode": "ptr32"} selects the pointer-width supplement: stream A is the driver interpreted by Miri for a
+32-bit target (i686: usize/isize/pointers are 32 bits wide, as on wasm32) with release semantics, stream B the
+native x86-64 release build.  Both have checks off, so NO panic asymmetry is permitted; events whose
+integer operand type is usize/isize are pointer-width typed by design and are skipped (counted).
 """
 import json
 import os
@@ -79,17 +85,32 @@ def main():
     cmd_c = json.loads(sys.argv[1])
     cmd_r = json.loads(sys.argv[2])
     gen = json.loads(sys.argv[3]) if len(sys.argv) > 3 else None
-    st = Stats("C11", "checked")
+    opts = json.loads(sys.argv[4]) if len(sys.argv) > 4 else {}
+    ptr32 = opts.get("mode") == "ptr32"
+    side_a, side_b = ("32-bit-target (Miri i686) build", "native x86-64 build") if ptr32 else ("checking build", "release build")
+    st = Stats("C11", "ptr32" if ptr32 else "checked")
     procs = []
+    skipped_ptr = 0
+    import tempfile
+    errf = tempfile.TemporaryFile(mode="w+") if ptr32 else None
 
     def start(cmd):
+        cwd, env = None, None
+        if isinstance(cmd, dict):
+            cwd = cmd.get("cwd")
+            if cmd.get("env"):
+                env = dict(os.environ)
+                env.update(cmd["env"])
+            cmd = cmd["argv"]
         if gen:
             g = subprocess.Popen(gen, stdout=subprocess.PIPE)
-            p = subprocess.Popen(cmd, stdin=g.stdout, stdout=subprocess.PIPE, universal_newlines=True, bufsize=1 << 20)
+            p = subprocess.Popen(cmd, stdin=g.stdout, stdout=subprocess.PIPE, stderr=errf,
+                                 universal_newlines=True, bufsize=1 << 20, cwd=cwd, env=env)
             g.stdout.close()
             procs.append(g)
         else:
-            p = subprocess.Popen(cmd, stdin=subprocess.DEVNULL, stdout=subprocess.PIPE, universal_newlines=True, bufsize=1 << 20)
+            p = subprocess.Popen(cmd, stdin=subprocess.DEVNULL, stdout=subprocess.PIPE, stderr=errf,
+                                 universal_newlines=True, bufsize=1 << 20, cwd=cwd, env=env)
         procs.append(p)
         return p
 
@@ -128,6 +149,10 @@ def main():
         tr = lr.split()
         sc = tc.index("=>")
         sr = tr.index("=>")
+        if ptr32 and tc[0] == "fi" and tr[0] == "fi" and tc[1:3] == tr[1:3] and tc[3] != tr[3]:
+            # integer operand type is usize / isize: its width (token 3) follows the pointer width by design
+            skipped_ptr += 1
+            continue
         if tc[:sc] != tr[:sr]:
             errors += 1
             sys.stderr.write("MISALIGNED at pair %d:\n  %s  %s" % (pairs, lc, lr))
@@ -161,8 +186,13 @@ def main():
             if pa and pb:
                 continue
             if pb and not pa:
-                st.violation("C11:%s:release-only-panic:%s" % (form_name(tc, i), tc[1].split(".")[0]), lc,
-                             "release build panicked (%s) where the checking build returned %s" % (panic_text(b), a))
+                st.violation("C11:%s:%s-only-panic:%s" % (form_name(tc, i), "native" if ptr32 else "release", tc[1].split(".")[0]), lc,
+                             "%s panicked (%s) where the %s returned %s" % (side_b, panic_text(b), side_a, a))
+                div = "viol"
+                continue
+            if pa and ptr32:
+                st.violation("C11:%s:ptr32-only-panic:%s" % (form_name(tc, i), tc[1].split(".")[0]), lc,
+                             "%s panicked (%s) where the %s returned %s (both have checks off)" % (side_a, panic_text(a), side_b, b))
                 div = "viol"
                 continue
             if pa and not pb:
@@ -179,8 +209,8 @@ def main():
                              % (panic_text(a), b))
                 div = "viol"
                 continue
-            st.violation("C11:%s:value-differs:%s" % (form_name(tc, i), tc[1].split(".")[0]), lc,
-                         "checking build returned %s, release build returned %s" % (a, b))
+            st.violation("C11:%s:value-differs%s:%s" % (form_name(tc, i), "-ptr32" if ptr32 else "", tc[1].split(".")[0]), lc,
+                         "%s returned %s, %s returned %s" % (side_a, a, side_b, b))
             div = "viol"
         st.evaluations += 1
         st.layouts.add(tc[1])
@@ -191,11 +221,27 @@ def main():
             st.cells.add(key)
             if len(st.samples) < 12:
                 st.samples.append("checked: %s || release: %s" % (lc.strip()[:200], " ".join(tr[sr:])[:160]))
+    if ptr32:
+        # the interpreter must have finished cleanly: a Miri abort (UB report, unsupported operation) is not a verdict
+        rc = pc.wait()
+        if rc != 0:
+            errors += 1
+            errf.seek(0)
+            sys.stderr.write("32-bit interpreter run exited %s: %s\n" % (rc, errf.read()[-1500:]))
     for p in procs:
         try:
             p.kill()
         except Exception:
             pass
+    if ptr32:
+        st.extra["ptr32_aligned_pairs"] = pairs
+        st.extra["ptr32_identical_pairs"] = identical
+        st.extra["ptr32_usize_isize_pairs_skipped"] = skipped_ptr
+        res = st.result()
+        res["profile"] = "ptr32(miri-i686)-vs-native"
+        res["monitor_errors"] = errors
+        sys.stdout.write(json.dumps(res) + "\n")
+        return
     st.extra["aligned_pairs"] = pairs
     st.extra["identical_pairs"] = identical
     st.extra["permitted_checked_only_panics"] = permitted
